@@ -23,7 +23,7 @@ func checkC18(p *load.Program, r *kit.Report) {
 	r.Rule("GUARD-DOM", "VerifyMerkleProof returns success only behind (a) the nil-error edge of CheckHeader(hash of the header the proof carries) or of GetHeader(*proof.BlockHash), and (b) the nil-error edge of proof.Verify(); neither-arm returns an error", 3)
 	r.Rule("ORDER", "on the hash-only arm the repository's header is installed into proof.BlockHeader before Verify(); Verify() is never called before the lookup", 2)
 	r.Rule("PROVENANCE", "the returned height and most-work flag are the lookup's results", 1)
-	r.Rule("FLAG-RULE", "the most-work flag returned comes from CheckHeader/GetHeader, which decide it by repo.longest.AtHeight(height).Hash.Equal(&hash)", 2)
+	r.Rule("FLAG-RULE", "the most-work flag returned comes from CheckHeader/GetHeader, which decide it by comparing the hash with the most-work chain's header at that height (in memory and on the height-map arm), never by membership of the long-lived height map", 4)
 	checkFlagRule(p, r)
 	r.Rule("DEP-FACT", "merkle_proof.MerkleProof.Verify (dependency body) returns nil with a header present only behind BlockHeader.MerkleRoot.Equal(computed root)", 1)
 
